@@ -13,6 +13,7 @@ CONSTANTS
   MaxReadFaults = 0
   AllowSoleRecordLoss = FALSE
   AllowIntraSetCollision = TRUE
+  AllowContinueAfterVolatile = TRUE
   RelevantSignersOnly = TRUE
 SPECIFICATION Spec
 VIEW View
